@@ -625,7 +625,7 @@ Print Assumptions C10_mt_max_under_min_key_unsound.
     DD/ApplyMtbdd*.v inside the module only. *)
 
 From OxiVerif Require DD.MtG DD.MtGBase DD.MtGProofs DD.MtGIte DD.MtGRestrict DD.MtGTop
-  DD.MtF64 DD.MtF64Laws DD.MtF64Proofs.
+  DD.MtI64 DD.MtF64 DD.MtF64Laws DD.MtF64Proofs.
 
 Module C10F.
 Import MtG MtGBase MtGProofs MtGIte MtGRestrict MtGTop MtF64 MtF64Laws MtF64Proofs.
@@ -688,6 +688,11 @@ Theorem C10_mtg_canonical :
   forall (TA : talg) s r1 r2 phi, MtOK s -> DenM s r1 phi -> DenM s r2 phi -> r1 = r2.
 Proof. exact @denm_canon. Qed.
 Print Assumptions C10_mtg_canonical.
+
+(** the laws are satisfiable without axioms: the integer terminal type [I64] *)
+Theorem C10_mtg_i64_laws : tlaws MtI64.i64_alg.
+Proof. exact MtI64.i64_laws. Qed.
+Print Assumptions C10_mtg_i64_laws.
 
 (** ** MTBDD<F64> *)
 
